@@ -380,9 +380,15 @@ def _check_handler_guards(run, world, folder, mod, c):
             for t in n.targets:
                 if isinstance(t, ast.Name):
                     asg.setdefault(t.id, []).append(n.value)
-    tdefs = {k: vs[0] for k, vs in asg.items() if all(
-        isinstance(v, ast.Call) and len(v.args) == 1 and
-        unparse(v.args[0]) == "self._buffer[1]" for v in vs)}
+    # (every assignment converts a byte with the same enumeration, and one
+    # of them converts the message-type byte of the buffer: the name is the
+    # message type wherever the dispatch reads it)
+    tdefs = {k: [v for v in vs if unparse(v.args[0]) ==
+                 "self._buffer[1]"][0]
+             for k, vs in asg.items() if all(
+        isinstance(v, ast.Call) and len(v.args) == 1 for v in vs) and
+        len({unparse(v.func) for v in vs}) == 1 and any(
+            unparse(v.args[0]) == "self._buffer[1]" for v in vs)}
     enum = None
     for v in list(tdefs.values()) + [
             n for n in ast.walk(fn) if isinstance(n, ast.Call) and len(
@@ -473,6 +479,36 @@ def _check_handler_guards(run, world, folder, mod, c):
                    direct[0].ast, 80), "types_reaching_the_raise":
                    sorted(left)})
     run.floor("LUBA handler type guards", nguards, 3)
+
+
+def _member_test(test, arg, enum_expr):
+    """`any(<arg> == m.value for m in <Enum>)` (either side order), or
+    `<arg> in [m.value for m in <Enum>]` / `in <Enum>._value2member_map_`:
+    the value is one the enumeration defines."""
+    a, e = unparse(arg), unparse(enum_expr)
+    if isinstance(test, ast.Call) and unparse(test.func) == "any" and len(
+            test.args) == 1 and isinstance(test.args[0], ast.GeneratorExp):
+        g = test.args[0]
+        if len(g.generators) == 1 and not g.generators[0].ifs and unparse(
+                g.generators[0].iter) == e and isinstance(
+                    g.generators[0].target, ast.Name) and isinstance(
+                        g.elt, ast.Compare) and len(g.elt.ops) == 1 and \
+                isinstance(g.elt.ops[0], ast.Eq):
+            v = g.generators[0].target.id + ".value"
+            return {unparse(g.elt.left), unparse(g.elt.comparators[0])} == \
+                {a, v}
+    if isinstance(test, ast.Compare) and len(test.ops) == 1 and isinstance(
+            test.ops[0], ast.In) and unparse(test.left) == a:
+        r = test.comparators[0]
+        if unparse(r) == e + "._value2member_map_":
+            return True
+        if isinstance(r, (ast.ListComp, ast.SetComp, ast.GeneratorExp)) and \
+                len(r.generators) == 1 and unparse(
+                    r.generators[0].iter) == e and isinstance(
+                        r.generators[0].target, ast.Name) and unparse(
+                            r.elt) == r.generators[0].target.id + ".value":
+            return True
+    return False
 
 
 def _check_proto(run, world, folder, mod, c):
@@ -1023,6 +1059,13 @@ def _check_proto(run, world, folder, mod, c):
                     if any(h.type is not None and unparse(h.type) ==
                            "ValueError" for h in p.handlers):
                         guarded = True
+                if isinstance(p, ast.If) and any(
+                        child is s or any(child is y for y in ast.walk(s))
+                        for s in p.body) and n.args and _member_test(
+                            p.test, n.args[0], n.func):
+                    # converted only where the value was found among the
+                    # enumeration's values: cannot raise
+                    guarded = True
                 child = p
                 p = getattr(p, "_parent", None)
             run.ob("R-FSM-ESC", "%s._process_byte#%s" % (P, unparse(n)[:50]),
